@@ -117,6 +117,8 @@ def mk_library(texts, with_np=True, order=None, np_only=None):
         fields = [fields[i % len(fields)] for i in order if i < len(fields)] + [f for j, f in enumerate(fields) if j not in order]
     e = M.Entry("article", "Key" + "é", fields, start_line=3, raw="@article{raw " + t[0] + "}")
     e.set_parser_metadata("some", {"meta": t[0]})
+    # as left behind by the default parse stack: a record per field, some of them 'no-enclosing'
+    e.set_parser_metadata("removed_enclosing", {f.key: ["{", "no-enclosing", '"'][(i + len(t[0])) % 3] for i, f in enumerate(fields)})
     blocks = [M.String("str" + "é", t[2], 0, "@string{raw}"), e, M.Preamble("pre " + t[0], 9, "@preamble{raw}"), M.ExplicitComment("c " + t[1], 10, "@comment{raw}"),
               M.ImplicitComment("% " + t[2], 11, "% raw"), M.ParsingFailedBlock(BlockAbortedException("x", 1), 12, "@failed{" + t[0]),
               M.Entry("book", "second", [M.Field("title", t[2], 20)], 19, "raw2")]
